@@ -134,6 +134,10 @@ type Runner struct {
 	stats  map[string]int64
 	maxAll uint64
 	maxOne int64
+	// tripped: codecs with an over-ceiling allocation; their enumeration is cut short (the
+	// violation is already recorded) so that larger lengths cannot exhaust the machine
+	tripped map[string]bool
+	cut     bool
 	unstab int64
 	msA    runtime.MemStats
 	msB    runtime.MemStats
@@ -142,11 +146,14 @@ type Runner struct {
 
 const batchSize = 48
 
+// blowBatchSize keeps the memory held by one batch of huge-length cases small.
+const blowBatchSize = 8
+
 var sink []byte
 
 // NewRunner starts the sections of one run.
 func NewRunner(r *ev.R) *Runner {
-	k := &Runner{R: r, stats: map[string]int64{}, sample: map[string]bool{}}
+	k := &Runner{R: r, stats: map[string]int64{}, sample: map[string]bool{}, tripped: map[string]bool{}}
 	if r.Thorough() {
 		k.B = ThoroughBounds()
 	} else {
@@ -265,10 +272,10 @@ func (k *Runner) Run(codecs []*Codec) {
 	if k.B.AllReplacements {
 		repl = "all 255 other byte values"
 	}
-	k.enums[kTrunc].Done(true, map[string]any{"prefixes": "every n in [0,len)"}, "every strict prefix of every seed encoding")
-	k.enums[kMut].Done(true, map[string]any{"replacements": repl}, "every position of every seed encoding x replacement bytes")
-	k.enums[kBlow].Done(true, map[string]any{"patterns": len(blowPatterns())}, "every position of every seed encoding x huge-length patterns (uvarint splice, 32/64-bit overwrite)")
-	k.enums[kShort].Done(true, map[string]any{"max_len_all_bytes": k.B.ShortLen, "two_byte_menu_for_light_headers_and_quick": len(menu2Bounds())}, "all short byte strings alone and after every valid header")
+	k.enums[kTrunc].Done(!k.cut, map[string]any{"prefixes": "every n in [0,len)"}, "every strict prefix of every seed encoding")
+	k.enums[kMut].Done(!k.cut, map[string]any{"replacements": repl}, "every position of every seed encoding x replacement bytes")
+	k.enums[kBlow].Done(!k.cut, map[string]any{"patterns": len(blowPatterns())}, "every position of every seed encoding x huge-length patterns (uvarint splice, 32/64-bit overwrite)")
+	k.enums[kShort].Done(!k.cut, map[string]any{"max_len_all_bytes": k.B.ShortLen, "two_byte_menu_for_light_headers_and_quick": len(menu2Bounds())}, "all short byte strings alone and after every valid header")
 	for name, n := range k.stats {
 		r.Count(name, n)
 	}
@@ -436,29 +443,52 @@ func blowPatterns() []blowPattern {
 		}
 		return b
 	}
+	// ascending: expand() runs one pass per pattern over all positions and stops a codec at
+	// the first over-ceiling allocation, so a decoder that trusts a length is caught by the
+	// 2^20 pass (MiB-sized allocations) before the 2^40..2^64 passes could exhaust memory
 	return []blowPattern{
 		{"uvarint-2^20", uvar(1 << 20), 1},
+		{"be32-0000ffff", []byte{0x00, 0x00, 0xff, 0xff}, 4},
+		{"be32-00ffffff", []byte{0x00, 0xff, 0xff, 0xff}, 4},
+		{"json-1e12-digits", []byte("999999999999"), 1},
+		{"uvarint-overlong", append(ff(10), 0x01), 1},
 		{"uvarint-2^31-1", uvar(1<<31 - 1), 1},
+		{"be32-7fffffff", []byte{0x7f, 0xff, 0xff, 0xff}, 4},
+		{"be32-80000000", []byte{0x80, 0, 0, 0}, 4},
+		{"be32-ffffffff", ff(4), 4},
 		{"uvarint-2^32", uvar(1 << 32), 1},
 		{"uvarint-2^40", uvar(1 << 40), 1},
+		{"be64-7fffffffffffffff", append([]byte{0x7f}, ff(7)...), 8},
+		{"be64-ffffffffffffffff", ff(8), 8},
 		{"uvarint-2^62", uvar(1 << 62), 1},
 		{"uvarint-2^63-1", uvar(1<<63 - 1), 1},
 		{"uvarint-2^63", uvar(1 << 63), 1},
 		{"uvarint-2^64-1", uvar(1<<64 - 1), 1},
-		{"uvarint-overlong", append(ff(10), 0x01), 1},
-		{"be32-ffffffff", ff(4), 4},
-		{"be32-7fffffff", []byte{0x7f, 0xff, 0xff, 0xff}, 4},
-		{"be32-80000000", []byte{0x80, 0, 0, 0}, 4},
-		{"be32-00ffffff", []byte{0x00, 0xff, 0xff, 0xff}, 4},
-		{"be32-0000ffff", []byte{0x00, 0x00, 0xff, 0xff}, 4},
-		{"be64-ffffffffffffffff", ff(8), 8},
-		{"be64-7fffffffffffffff", append([]byte{0x7f}, ff(7)...), 8},
-		{"json-1e9-digits", []byte("999999999999"), 1},
 	}
 }
 
+
 func (k *Runner) expand(c *Codec, seeds []seedRec) {
 	pats := blowPatterns()
+	// huge-length splices first, one pass per pattern in ascending order (see blowPatterns)
+	for _, p := range pats {
+		for si, s := range seeds {
+			enc := s.enc
+			for pos := 0; pos+p.replace <= len(enc); pos++ {
+				in := make([]byte, 0, len(enc)+len(p.bytes))
+				in = append(in, enc[:pos]...)
+				in = append(in, p.bytes...)
+				in = append(in, enc[pos+p.replace:]...)
+				k.add(job{c: c, k: kBlow, in: in, seed: si, n: pos, note: p.name}, seeds)
+			}
+		}
+		k.flushWith(seeds)
+		if k.tripped[c.Name] {
+			k.cut = true
+			k.R.Count("codecs_cut_after_over_ceiling_allocation", 1)
+			return
+		}
+	}
 	for si, s := range seeds {
 		enc := s.enc
 		for n := 0; n < len(enc); n++ {
@@ -471,17 +501,10 @@ func (k *Runner) expand(c *Codec, seeds []seedRec) {
 				k.add(job{c: c, k: kMut, in: in, seed: si, n: pos}, seeds)
 			}
 		}
-		for pos := 0; pos < len(enc); pos++ {
-			for _, p := range pats {
-				if pos+p.replace > len(enc) {
-					continue
-				}
-				in := make([]byte, 0, len(enc)+len(p.bytes))
-				in = append(in, enc[:pos]...)
-				in = append(in, p.bytes...)
-				in = append(in, enc[pos+p.replace:]...)
-				k.add(job{c: c, k: kBlow, in: in, seed: si, n: pos, note: p.name}, seeds)
-			}
+		if k.tripped[c.Name] {
+			k.cut = true
+			k.R.Count("codecs_cut_after_over_ceiling_allocation", 1)
+			return
 		}
 	}
 	heads := append([][]byte{nil}, c.Headers...)
@@ -521,7 +544,7 @@ var curSeeds []seedRec
 
 func (k *Runner) add(j job, seeds []seedRec) {
 	k.batch = append(k.batch, j)
-	if len(k.batch) >= batchSize {
+	if len(k.batch) >= batchSize || (j.k == kBlow && len(k.batch) >= blowBatchSize) {
 		k.flushWith(seeds)
 	}
 }
@@ -552,6 +575,7 @@ func (k *Runner) flushWith(seeds []seedRec) {
 				k.maxOne = int64(j.alloc)
 			}
 			if j.alloc > Ceiling(len(j.in)) {
+				k.tripped[j.c.Name] = true
 				k.violate(j.c, "alloc-over-ceiling", kindName[j.k], j.in, k.seedBytes(seeds, j), j.n, j.note,
 					"decoding %d bytes (%s at %d %s) allocated %d bytes, ceiling %d; result err=%v", len(j.in), kindName[j.k], j.n, j.note, j.alloc, Ceiling(len(j.in)), j.err)
 			}
